@@ -235,6 +235,16 @@ class C16Engine(C09.C09Engine):
             self.check_lookups(ctx)
             self.trace.append("rename_col:accepted")
             return "accepted"
+        if op[0] == "flip_pk":
+            c = op[1]
+            if c not in self.w.m or self.kinds[c] != "column":
+                return "veto"
+            self.w.m[c]["pk"] = not self.w.m[c]["pk"]
+            self.real[c].pk = self.w.m[c]["pk"]
+            self.version += 1
+            self.check_state(ctx)
+            self.trace.append("flip_pk:accepted")
+            return "accepted"
         if op[0] == "render_all":
             hs = [h for h in self.w.m if self.kinds[h] in TOP + ("column", "db", "index")]
             order = random.Random(op[1]).sample(hs, len(hs))
@@ -310,7 +320,7 @@ def gen_world(rng: random.Random, via: str) -> World:
     return w
 
 
-OPW = {"render": 30, "render_all": 6, "rename_col": 3, "add": 22, "delete": 16, "rename": 4, "delete_project": 1,
+OPW = {"render": 30, "render_all": 6, "rename_col": 3, "flip_pk": 4, "add": 22, "delete": 16, "rename": 4, "delete_project": 1,
        "t_add_col": 4, "t_del_col": 4, "t_del_col_at": 2, "t_add_idx": 3, "t_del_idx": 2, "add_bad": 1, "delete_bad": 1}
 
 
@@ -325,6 +335,8 @@ def draw_op(rng: random.Random, eng: C16Engine, weights: Dict[str, float]) -> Li
         return ["render", h, rng.choice(["sql", "dbml"])]
     if k == "render_all":
         return ["render_all", rng.randrange(1000)]
+    if k == "flip_pk":
+        return ["flip_pk", rng.choice(w.handles("column"))]
     if k == "rename_col":
         cols = w.handles("column")
         c = rng.choice(cols)
